@@ -316,6 +316,11 @@ func c08Streams(tier string) []c08stream {
 		{"get,get,get", []Req{GetReq(a), GetReq(b), GetReq(c)}},
 		{"set-70B,get", []Req{SetReq(c, long), GetReq(a)}},
 		{"del-split,mset-split", []Req{DelReq(a, b), MSetReq(a, "1", c, "\r\n")}},
+		// many empty arguments: the shortest encodings an argument can have
+		{"del-empties", []Req{DelReq("", "", "")}},
+		{"mget-empties,get", []Req{MGetReq("", "", "", ""), GetReq(a)}},
+		{"rpush-empties,get", []Req{{Kind: "RPUSH", Bytes: world.Cmd("rpush", "q", "", "", "", "", "")}, GetReq(b)}},
+		{"get,hmset-empties", []Req{GetReq(c), {Kind: "HMSET", Bytes: world.Cmd("hmset", "", "", "", "", "")}}},
 	}
 	if tier == "thorough" {
 		s = append(s,
